@@ -57,6 +57,8 @@ pub struct Ctx {
     pub trace: bool,
     pub replaying: bool,
     pub replay_target: Option<u64>,
+    hb_path: Option<PathBuf>,
+    hb_last: Instant,
     counter: u64,
     stratum: String,
     pub evals: u64,
@@ -91,6 +93,8 @@ impl Ctx {
             trace: std::env::var("VERIF_TRACE").is_ok(),
             replaying: false,
             replay_target: None,
+            hb_path: std::env::var("VERIF_HB").ok().map(PathBuf::from),
+            hb_last: Instant::now(),
             counter: 0,
             stratum: "default".into(),
             evals: 0,
@@ -114,6 +118,13 @@ impl Ctx {
     pub fn take(&mut self) -> bool {
         let c = self.counter;
         self.counter += 1;
+        // heartbeat for the orchestrator's stall detection (progress = case counter)
+        if let Some(p) = &self.hb_path {
+            if self.hb_last.elapsed() > Duration::from_millis(500) {
+                let _ = std::fs::write(p, format!("{} {}", c, self.evals));
+                self.hb_last = Instant::now();
+            }
+        }
         if self.replaying {
             return self.replay_target.map(|t| t == c).unwrap_or(true);
         }
@@ -340,6 +351,21 @@ pub fn read_hashes(path: &Path, into: &mut HashSet<u64>) {
     }
 }
 
+/// CPU seconds (user + system) consumed so far by a live process, from /proc (None if gone)
+pub fn cpu_seconds(pid: u32) -> Option<f64> {
+    let st = std::fs::read_to_string(format!("/proc/{}/stat", pid)).ok()?;
+    let rest = &st[st.rfind(')')? + 2..];
+    let f: Vec<&str> = rest.split_whitespace().collect();
+    // after the command name: state is field 0, utime is field 11, stime field 12
+    let ut: f64 = f.get(11)?.parse().ok()?;
+    let stime: f64 = f.get(12)?.parse().ok()?;
+    Some((ut + stime) / 100.0)
+}
+
+/// a shard counts as stuck in one case when its heartbeat has not moved while it burned this
+/// much CPU (load-independent: a starved process burns no CPU and is simply waited for)
+pub const STALL_CPU_S: f64 = 45.0;
+
 pub struct ShardOutcome {
     pub index: usize,
     pub json: Option<Value>,
@@ -375,15 +401,30 @@ pub fn run_shards(prop: &str, tier: Tier, seed: u64, n: usize, run_dir: &Path, w
         for (k, v) in extra_env {
             cmd.env(k, v);
         }
+        let hb = run_dir.join(format!("shard{}.hb", i));
+        let _ = std::fs::remove_file(&hb);
+        cmd.env("VERIF_HB", &hb);
         let child = cmd.spawn().expect("spawn shard");
-        children.push((i, child, out, errp));
+        children.push((i, child, out, errp, hb, String::new(), 0.0f64));
     }
     let start = Instant::now();
     let mut outcomes = vec![];
     let mut pending = children;
     while !pending.is_empty() {
         let mut still = vec![];
-        for (i, mut child, out, errp) in pending {
+        for (i, mut child, out, errp, hb, mut hb_seen, mut cpu_at_change) in pending {
+            // stall detection: heartbeat unchanged while the shard keeps burning CPU
+            let now_hb = std::fs::read_to_string(&hb).unwrap_or_default();
+            let cpu = cpu_seconds(child.id()).unwrap_or(0.0);
+            if now_hb != hb_seen {
+                hb_seen = now_hb;
+                cpu_at_change = cpu;
+            } else if cpu - cpu_at_change > STALL_CPU_S {
+                let _ = child.kill();
+                let _ = child.wait();
+                outcomes.push(ShardOutcome { index: i, json: None, died: Some(format!("no progress for {:.0} CPU seconds (stuck in one case)", cpu - cpu_at_change)), timed_out: true, stderr_tail: tail(&errp) });
+                continue;
+            }
             match child.try_wait() {
                 Ok(Some(status)) => {
                     let json = std::fs::read_to_string(&out).ok().and_then(|s| serde_json::from_str::<Value>(&s).ok());
@@ -396,7 +437,7 @@ pub fn run_shards(prop: &str, tier: Tier, seed: u64, n: usize, run_dir: &Path, w
                         let _ = child.wait();
                         outcomes.push(ShardOutcome { index: i, json: None, died: Some("killed by wall-clock watchdog".into()), timed_out: true, stderr_tail: tail(&errp) });
                     } else {
-                        still.push((i, child, out, errp));
+                        still.push((i, child, out, errp, hb, hb_seen, cpu_at_change));
                     }
                 }
                 Err(e) => {
@@ -420,31 +461,88 @@ fn tail(p: &Path) -> String {
     lines[k..].join("\n")
 }
 
-/// Re-run one shard in trace mode (under a CPU limit) to find the case that killed/hung it.
-/// Returns (last case label, how it ended).
-pub fn trace_shard(prop: &str, tier: Tier, seed: u64, idx: usize, n: usize, run_dir: &Path, cpu_limit_s: u64) -> (Option<String>, String) {
+/// Re-run one shard alone in trace mode (every case label goes to a file before the case
+/// runs) to find the case that killed or hung it. No limit applies to the shard as a whole —
+/// thorough shards legitimately run for minutes — only to a single case: the label not moving
+/// while the process burns STALL_CPU_S of CPU means that case hangs.
+/// Returns (last case label, how it ended: "hang" | "signal: N …" | "exit ok" | other).
+pub fn trace_shard(prop: &str, tier: Tier, seed: u64, idx: usize, n: usize, run_dir: &Path, _unused: u64) -> (Option<String>, String) {
     let exe = std::env::current_exe().expect("current_exe");
     let errp = run_dir.join(format!("trace{}.err", idx));
     let out = run_dir.join(format!("trace{}.json", idx));
-    let cmdline = format!(
-        "ulimit -t {}; ulimit -c 0; exec {} shard {} --tier {} --seed {} --shard {}/{} --out {} 2> {}",
-        cpu_limit_s,
-        exe.display(),
-        prop,
-        tier.name(),
-        seed,
-        idx,
-        n,
-        out.display(),
-        errp.display()
-    );
-    let status = Command::new("sh").arg("-c").arg(&cmdline).env("VERIF_TRACE", "1").stdin(Stdio::null()).stdout(Stdio::null()).status();
-    let how = match status {
-        Ok(s) => format!("{}", s),
-        Err(e) => format!("spawn error {}", e),
+    let errf = match std::fs::File::create(&errp) {
+        Ok(f) => f,
+        Err(e) => return (None, format!("cannot create trace file: {}", e)),
     };
-    let text = String::from_utf8_lossy(&std::fs::read(&errp).unwrap_or_default()).to_string();
-    let last = text.lines().filter(|l| l.starts_with("TRACE-CASE ")).last().map(|l| l["TRACE-CASE ".len()..].to_string());
+    let child = Command::new(&exe)
+        .arg("shard")
+        .arg(prop)
+        .arg("--tier")
+        .arg(tier.name())
+        .arg("--seed")
+        .arg(seed.to_string())
+        .arg("--shard")
+        .arg(format!("{}/{}", idx, n))
+        .arg("--out")
+        .arg(&out)
+        .env("VERIF_TRACE", "1")
+        .env_remove("VERIF_HB")
+        .stdin(Stdio::null())
+        .stdout(Stdio::null())
+        .stderr(errf)
+        .spawn();
+    let mut child = match child {
+        Ok(c) => c,
+        Err(e) => return (None, format!("spawn error {}", e)),
+    };
+    let last_label = |p: &Path| -> Option<String> {
+        // read the tail of the trace file only
+        use std::io::{Read, Seek, SeekFrom};
+        let mut f = std::fs::File::open(p).ok()?;
+        let len = f.metadata().ok()?.len();
+        let from = len.saturating_sub(64 * 1024);
+        f.seek(SeekFrom::Start(from)).ok()?;
+        let mut buf = Vec::new();
+        f.read_to_end(&mut buf).ok()?;
+        let text = String::from_utf8_lossy(&buf).to_string();
+        text.lines().filter(|l| l.starts_with("TRACE-CASE ")).last().map(|l| l["TRACE-CASE ".len()..].to_string())
+    };
+    let start = Instant::now();
+    let mut seen: Option<String> = None;
+    let mut cpu_at_change = 0.0f64;
+    let how;
+    loop {
+        match child.try_wait() {
+            Ok(Some(status)) => {
+                how = if status.success() { "exit ok".to_string() } else { format!("{}", status) };
+                break;
+            }
+            Ok(None) => {}
+            Err(e) => {
+                how = format!("wait error {}", e);
+                break;
+            }
+        }
+        let cur = last_label(&errp);
+        let cpu = cpu_seconds(child.id()).unwrap_or(0.0);
+        if cur != seen {
+            seen = cur;
+            cpu_at_change = cpu;
+        } else if cpu - cpu_at_change > STALL_CPU_S {
+            let _ = child.kill();
+            let _ = child.wait();
+            how = "hang".to_string();
+            break;
+        }
+        if start.elapsed() > Duration::from_secs(6 * 3600) {
+            let _ = child.kill();
+            let _ = child.wait();
+            how = "trace re-run exceeded the wall-clock watchdog".to_string();
+            break;
+        }
+        std::thread::sleep(Duration::from_millis(200));
+    }
+    let last = last_label(&errp);
     let _ = std::fs::remove_file(&errp);
     (last, how)
 }
